@@ -25,10 +25,10 @@ import (
 // that in the projection the shared converter has seen only the texts of the lineage.
 
 // derivingKinds: the new document is made from the current one
-var derivingKinds = map[string]bool{"tpldoc": true, "tpldoc2": true, "reopen": true}
+var derivingKinds = map[string]bool{"tpldoc": true, "tpldoc2": true, "reopen": true, "tpldc": true}
 
 // navKinds are never removed by the projection
-var navKinds = map[string]bool{"tpldoc": true, "tpldoc2": true, "reopen": true, "tplstr": true, "md": true, "swap": true, "openforeign": true, "mdc": true}
+var navKinds = map[string]bool{"tpldoc": true, "tpldoc2": true, "reopen": true, "tplstr": true, "md": true, "swap": true, "openforeign": true, "mdc": true, "tplc": true, "tpldc": true}
 
 type birth struct {
 	parent *document.Document // nil: made from nothing (New, conversion, string template)
@@ -100,6 +100,10 @@ func (r *docRun) projection(history []ops.Op) []ops.Op {
 		if keep {
 			if o.K == "mdc" && !made[j] {
 				o = asPlainMD(o)
+				changed = true
+			}
+			if (o.K == "tplc" || o.K == "tpldc") && !made[j] {
+				o = asOwnEngine(o) // engine.go
 				changed = true
 			}
 			out = append(out, o)
